@@ -243,6 +243,22 @@ func parseStatement(src string) (any, *Error) {
 	if err != nil {
 		return nil, err
 	}
+	// a list that ends in a comma, starts with one or holds two in a row is not SQL
+	for i := 0; i+1 < len(toks); i++ {
+		a, b := toks[i], toks[i+1]
+		if a.kind != tSymbol {
+			continue
+		}
+		if a.text == "," {
+			clause := b.kind == tIdent && (b.lower == "from" || b.lower == "where" || b.lower == "returning" || b.lower == "values" || b.lower == "set")
+			if b.kind == tEOF || clause || (b.kind == tSymbol && (b.text == ")" || b.text == "," || b.text == ";" || b.text == "]")) {
+				return nil, errf("invalid", "syntax error at or near %q: a list item is missing after the comma", b.text)
+			}
+		}
+		if (a.text == "(" || a.text == "[") && b.kind == tSymbol && b.text == "," {
+			return nil, errf("invalid", "syntax error at or near \",\": a list item is missing before the comma")
+		}
+	}
 	p := &parser{toks: toks, src: src}
 	st, err := p.statement()
 	if err != nil {
